@@ -23,6 +23,7 @@ that the layer reaches every Peer and that Peer::call applies it on every call w
 reachable through it.
 Every user of try_parse_timeout absorbs its error (an unparsable header is 'absent', never a failed request); Config accessors are pure projections of their own field.
 Outbound streams are opened by do_rpc only, i.e. under the layer stack and hence under the deadline.
+No synchronous lock guard (std / parking_lot / DashMap) is alive at a suspension point of the library's async code (a blocked executor thread polls no timer).
 """
 TRUSTED = ["tokio::time::sleep fires no earlier than its duration", "tower ServiceBuilder/Stack layer order (first added = outermost)",
            "str::parse::<u64> rejects non-numeric and overflowing input"]
@@ -753,3 +754,23 @@ def run(cx):
         ob.count(sum(x.evals for x in w))
         bad = [v for x in w for v in x.violations]
         ob.require(len(w) == 1 and not bad, "handler-dropped-at-deadline/no-spawn-on-request-path", "the handler can be detached from the request future (a timeout then answers but no longer stops it): " + "; ".join(str(v.msg) for v in bad)[:300], "anemo::rpc::server::Rpc::unary")
+
+    with cx.ob("C11.8", "R-DROP", "one layer out: nothing that can sit under the deadline blocks the executor - no synchronous lock guard (std / parking_lot / DashMap shard guard) is alive across an await in the library's async code: a task waiting for such a lock cannot be polled, so neither its timer nor anybody else's fires on that thread") as ob:
+        GUARDS = ("MutexGuard", "RwLockReadGuard", "RwLockWriteGuard", "dashmap::mapref", "dashmap::lock", "std::sync::poison", "parking_lot::")
+        n_co = 0
+        for b_ in prog.bodies.values():
+            if b_.crate not in ("anemo", "anemo_tower") or not b_.coroutine:
+                continue
+            n_co += 1
+            for l_ in range(1, len(b_.locals)):
+                ty = str(b_.local_ty(l_) or "")
+                head_ = ty.split("<")[0]
+                if not any(g_ in head_ for g_ in GUARDS) or ty.startswith("&") or "tokio::sync" in head_:
+                    continue
+                ys = owned_live_at_yield(b_, l_)
+                if ys:
+                    ob.fail("refuted", f"lock-guard-across-await/{owner_path(prog, b_)}/{ty.split('<')[0].split('::')[-1]}",
+                            f"{b_.path}: a `{ty[:80]}` is still alive at a suspension point (bb{ys[0]}): a synchronous lock is held across an await", b_.path, b_.loc(ys[0]))
+        ob.floor(n_co, 40, "coroutine bodies inspected for lock guards held across awaits")
+        ob.count(n_co)
+
